@@ -540,6 +540,8 @@ def _tower_unit(terms):
 
 
 EXTRA = [
+    T.call("contains", typed.F("s"), T.Str("it's 100%")), T.call("startswith", typed.F("s"), T.Str("a'_b")), T.call("endswith", typed.F("s"), T.Str("\\'%")),
+    T.binop("And", T.call("contains", typed.F("s"), T.Str("'%'")), T.binop("Eq", typed.F("u"), T.Str("k"))), T.unop("Not", T.call("contains", T.call("tolower", typed.F("s")), T.Str("_'\\"))),
     T.binop("Gt", T.binop("Add", typed.F("d"), ("Duration", "P1Y2M3DT4H5M6.5S")), typed.dtlit("2020-02-29T23:59:59Z")),
     T.binop("Lt", typed.F("d"), T.binop("Sub", T.call("now"), ("Duration", "-P1DT1H"))),
     T.binop("Eq", typed.F("g"), ("GUID", "123e4567-e89b-12d3-a456-426614174000")),
@@ -590,6 +592,9 @@ def run(ctx):
     ctx.pmap(_tower_unit, [tw[i::32] for i in range(32) if tw[i::32]])
     ctx.layer("pumped-towers", filters=int(ctx.counts["states"] - before), exhaustive=True,
               note="every self-composable constructor and every ordered pair of them stacked 4 / 6 (thorough: 8) times on either spine")
+    nm = meta_string_layer(ctx)
+    ctx.layer("string-contents", strings=len(META_STRINGS), positions=9, translations=nm, exhaustive=True,
+              note="quotes, LIKE wildcards and backslashes inside literals: output tokenises, parses and (SQLite dialect) prepares")
     no = odd_digit_layer(ctx)
     ctx.layer("non-ascii-digits", spellings=len(ODD_DIGITS), templates=len(ODD_TEMPLATES), translations=no, exhaustive=True,
               note="number / date / time / duration / GUID spellings with Unicode decimal digits: rejected by the parser, or translated to ASCII-only SQL tokens")
@@ -634,12 +639,69 @@ def odd_digit_layer(ctx):
     return n
 
 
+# ---------------------------------------------------------------- string contents (the main enumeration replaces every literal by a unique token)
+META_STRINGS = ["it's 100%", "a'_b", "\\'%", "'%'", "_'\\", "''", "%'", "'", "a''b%_", "\\", "x' OR 1=1 --%", "100%", "_", ""]
+
+
+def meta_string_layer(ctx):
+    """quote / wildcard / backslash combinations inside string literals, in the positions whose rendering differs (comparison, in-list,
+    LIKE pattern, LIKE subject, concat): the SQL must still tokenise without stray or unterminated tokens and parse"""
+    s_, u_ = typed.F("s"), typed.F("u")
+    n = 0
+    for sv in META_STRINGS:
+        L = T.Str(sv)
+        terms = [T.binop("Eq", s_, L), T.binop("In", s_, T.lst(L, T.Str("k"))), T.call("contains", s_, L), T.call("startswith", s_, L), T.call("endswith", s_, L),
+                 T.call("contains", L, s_), T.binop("Eq", T.call("concat", s_, L), u_), T.unop("Not", T.call("contains", T.call("tolower", s_), L)),
+                 T.binop("And", T.call("endswith", s_, L), T.binop("Eq", u_, T.Str("k")))]
+        for term in terms:
+            text = to_odata(term)
+            tree = _ps.parse(_lx.tokenize(text))
+            ctx.count("states")
+            for dname, cls in DIALECTS.items():
+                for al in (None, "al"):
+                    n += 1
+                    ctx.count("executions")
+                    ctx.count("transitions")
+                    try:
+                        sql = cls(al).visit(tree)
+                    except exceptions.ODataException:
+                        ctx.outcome(("meta-string", "refused"))
+                        continue
+                    except Exception as e:  # noqa
+                        ctx.violation("%s:meta-string:foreign:%s" % (dname, type(e).__name__), {"filter": text, "dialect": dname, "layer": "meta-strings"})
+                        continue
+                    bad = sqllex.bad_tokens(sqllex.lex(sql))
+                    err = None
+                    if not bad:
+                        try:
+                            SP.parse_sql(sql)
+                        except SP.SqlSyntaxError as e:
+                            err = str(e)[:80]
+                    if bad or err:
+                        ctx.violation("%s:meta-string:%s" % (dname, "bad-token" if bad else "syntax"), {"filter": text, "dialect": dname, "alias": al, "layer": "meta-strings", "sql": sql,
+                                                                                                       "problem": bad[0].text[:40] if bad else err})
+                    elif dname == "sqlite" and sqlite_syntax_error(sql.replace('"s"', '"f0"').replace('"u"', '"f1"'), al):
+                        ctx.violation("sqlite:meta-string:engine-syntax", {"filter": text, "dialect": dname, "alias": al, "layer": "meta-strings", "sql": sql})
+                    else:
+                        ctx.outcome(("meta-string", "ok"))
+    return n
+
+
 def _untuple(x):
     return tuple(_untuple(e) for e in x) if isinstance(x, list) else x
 
 
 def replay(ctx, case):
     text = case["filter"]
+    if case.get("layer") == "meta-strings":
+        sql = DIALECTS[case["dialect"]](case.get("alias")).visit(_ps.parse(_lx.tokenize(text)))
+        bad = [t.text[:40] for t in sqllex.bad_tokens(sqllex.lex(sql))]
+        try:
+            SP.parse_sql(sql)
+            err = None
+        except SP.SqlSyntaxError as e:
+            err = str(e)[:80]
+        return {"filter": text, "sql": sql, "bad_tokens": bad, "syntax": err, "ok": not bad and not err}
     if case.get("layer") == "odd-digits":
         try:
             sql = DIALECTS[case["dialect"]]().visit(_ps.parse(_lx.tokenize(text)))
